@@ -24,6 +24,7 @@ type Loop struct {
 	Writers   map[string][]ssa.Value // component -> the base values stored through (nil entry = unknown base)
 	SpecWrites []specWrite           // writes described by the modifies clause of a called contract
 	Reasons   []string
+	ModGhosts map[string]bool // ghost variables named in the modifies clause of a contract called in the body
 }
 
 type specWrite struct {
@@ -341,6 +342,12 @@ func (c *Ctx) callEffects(ins ssa.CallInstruction, l *Loop, top bool, seen map[*
 				l.ModAll = true
 				l.Reasons = append(l.Reasons, sub.Reasons...)
 			}
+			for g := range sub.ModGhosts {
+				if l.ModGhosts == nil {
+					l.ModGhosts = map[string]bool{}
+				}
+				l.ModGhosts[g] = true
+			}
 			for n, srt := range sub.ModComps {
 				for _, w := range sub.Writers[n] {
 					c.addComp(l, n, srt, calleeBaseToArg(w, fn, cc))
@@ -361,7 +368,11 @@ func (c *Ctx) specEffects(sp *FuncSpec, fn *ssa.Function, cc *ssa.CallCommon, l 
 	for _, m := range sp.Modifies {
 		m = strings.TrimSpace(m)
 		if c.ghostNames()[m] {
-			continue // ghost variables are havocked at every loop head anyway
+			if l.ModGhosts == nil {
+				l.ModGhosts = map[string]bool{}
+			}
+			l.ModGhosts[m] = true
+			continue
 		}
 		if m == "heap" {
 			l.ModAll = true
@@ -785,15 +796,94 @@ func (s *State) havocLoop(l *Loop, declared map[string][]Term) {
 	}
 	// ghost variables: whatever the loop body (its `at` statements, the contracts it calls) may have done to
 	// them is unknown at the start of an arbitrary iteration; the invariants carry what is needed
+	touched, all := c.loopGhosts(l)
 	var gnames []string
 	for g := range s.Ghost {
-		gnames = append(gnames, g)
+		if all || touched[g] {
+			gnames = append(gnames, g)
+		}
 	}
 	sort.Strings(gnames)
 	for _, g := range gnames {
 		tv := s.Ghost[g]
 		s.Ghost[g] = TV{T: s.freshConst("g_"+g, tv.Sort), Sort: tv.Sort, Ty: tv.Ty}
 	}
+}
+
+// loopGhosts: the ghost variables an iteration of the loop may assign - through `at ... : set` statements anchored
+// inside the loop (at the loop itself, at a nested loop, or at a call made in the body) or through the modifies clause
+// of a contract called in the body. all=true: unknown code runs in the body.
+func (c *Ctx) loopGhosts(l *Loop) (map[string]bool, bool) {
+	out := map[string]bool{}
+	if l.ModAll {
+		return out, true
+	}
+	for g := range l.ModGhosts {
+		out[g] = true
+	}
+	if c.Spec == nil {
+		return out, false
+	}
+	li := c.loopInfo(c.Fn)
+	inBody := func(k int) bool {
+		if k == l.Ordinal {
+			return true
+		}
+		if li != nil {
+			for _, l2 := range li.loops {
+				if l2.Ordinal == k && l.Body[l2.Head] {
+					return true
+				}
+			}
+		}
+		return false
+	}
+	callsInBody := map[string]bool{}
+	hasPanic := false
+	for b := range l.Body {
+		for _, ins := range b.Instrs {
+			if ci, ok := ins.(ssa.CallInstruction); ok {
+				name := calleeName(ci.Common())
+				if j := strings.Index(name, "::"); j >= 0 {
+					name = name[j+2:]
+				}
+				callsInBody[name] = true
+				if pn := paramNameOf(ci.Common().Value); pn != "" {
+					callsInBody[pn] = true
+				}
+			}
+			if _, ok := ins.(*ssa.Panic); ok {
+				hasPanic = true
+			}
+		}
+	}
+	for _, g := range c.Spec.Ghost {
+		if g.Kind != "set" {
+			continue
+		}
+		a := g.Anchor
+		switch {
+		case strings.HasPrefix(a, "loop "):
+			var k int
+			fmt.Sscanf(a, "loop %d", &k)
+			if inBody(k) {
+				out[g.Var] = true
+			}
+		case strings.HasPrefix(a, "before ") || strings.HasPrefix(a, "after "):
+			n := strings.TrimPrefix(strings.TrimPrefix(a, "before "), "after ")
+			if j := strings.LastIndex(n, "#"); j >= 0 {
+				n = n[:j]
+			}
+			if callsInBody[n] {
+				out[g.Var] = true
+			}
+		case strings.HasPrefix(a, "panic#"):
+			if hasPanic {
+				out[g.Var] = true
+			}
+		}
+	}
+	return out, false
 }
 
 // invariantRef: the reference (object / backing-store base) written through w, if it is the same in every
